@@ -397,11 +397,8 @@ def run(ctx):
     r = ctx.mc("ProxyHdrMC", "ProxyHdrMC.cfg")
     if not r.ok:
         raise MachineryError("ProxyHdr spec violates its own invariants: " + r.error)
-    ctx.require_actions("ProxyHdrMC", ["DeliverK"])
-    for reach in ("Reach1", "Reach2"):       # vacuity: these "invariants" must be violated
-        rr = ctx.mc("ProxyHdrMC", "ProxyHdrMC.%s.cfg" % reach.lower(), must_pass=False, coverage=False, label="reachability " + reach)
-        if rr.ok or rr.kind != "invariant":
-            raise MachineryError("vacuity: %s not reachable in ProxyHdrMC" % reach)
+    ctx.require_actions("ProxyHdrMC", ["DeliverValidPartial", "DeliverValidLast", "DeliverInvalidOpen",
+                                       "DeliverInvalidEarly", "DeliverInvalidClose"])
 
     rng = ctx.rng
     traces = []
@@ -415,7 +412,7 @@ def run(ctx):
                 traces.append(run_case(stream, cfg, [c]))
             traces.append(run_case(stream, cfg, []))
             traces.append(run_case(stream, cfg, [1] * len(stream)))
-    ctx.exhaustive = True
+    ctx.exhaustive = False   # every single split of every kind is enumerated, field values and multi-splits are sampled
     ctx.extra["exhaustive_note"] = "every single split point of the header region of every kind (field values sampled); multi-splits sampled"
     for _ in range(ctx.pick(1500, 60000)):
         kind = rng.choice(kinds)
